@@ -340,6 +340,7 @@ def check(chk):
     _direct_fade(chk, repo)
     _removal_always_removes(chk, repo)
     _light_player(chk, repo)
+    _commands_reach_the_stack(chk, repo)
 
     # ------------------------------------------------------------ BATCH-1
     g = repo.func(BL, "PlatformBatchLightSystem._send_update_batch")
@@ -904,6 +905,39 @@ def _light_player(chk, repo):
     chk.floor("PLAYER-9", 12)
 
 
+def _commands_reach_the_stack(chk, repo):
+    """CMD-9: every colour command becomes a stack entry.  Each returning path of Light.color hands (color, fade_ms, priority, key, start_time)
+    to _add_to_stack - whatever the stack holds already (a command at high priority on an empty stack must still be there when a lower one
+    arrives; a repeated command must still end a running fade or fade-out of its key); on() and off() reach color() on every path with the
+    caller's fade, priority and key."""
+    f = repo.func(LT, "Light.color")
+    chk.analysed(f)
+    cfg = f.cfg()
+    adds = [(n, c) for n, c in cfg.calls_named("_add_to_stack") if dotted(c.func.value) == "self"]
+    chk.need(adds, "CMD-9", "Light.color adds the command to the stack (_add_to_stack)", f)
+    w = cfg.must_pass(cfg.entry.id, [n.id for n, _ in adds])
+    chk.ob("CMD-9", "every returning path of Light.color adds the command to the stack", w is None, f.where(), construct=f.ident,
+           detail="a command that is dropped because of what the stack holds (empty: `already off`; same colour on top: `already there`) is missing "
+                  "when the entries around it change", text="colour command dropped", path=cfg.fmt_path(w, f) if w else None, nontrivial=True)
+    for n, c in adds:
+        chk.ob("CMD-9", "the stack entry carries the command's colour, fade, priority, key and start time", [src(a) for a in c.args] == ["color", "fade_ms", "priority", "key", "start_time"] and not c.keywords,
+               f.where(c), detail=src(c), construct=f.ident, text="_add_to_stack arguments")
+    for name in ("on", "off"):
+        g = repo.func(LT, "Light." + name)
+        chk.analysed(g)
+        gcfg = g.cfg()
+        cols = [(n, c) for n, c in gcfg.calls_named("color") if dotted(c.func.value) == "self"]
+        w = gcfg.must_pass(gcfg.entry.id, [n.id for n, _ in cols]) if cols else [gcfg.entry.id]
+        chk.ob("CMD-9", "every returning path of Light.%s issues the colour command" % name, w is None, g.where(), construct=g.ident,
+               text="Light.%s without command" % name, path=gcfg.fmt_path(w, g) if w and len(w) > 1 else None, nontrivial=True)
+        for n, c in cols:
+            kw = {k.arg: src(k.value) for k in c.keywords}
+            ok = kw.get("fade_ms") == "fade_ms" and kw.get("priority") == "priority" and kw.get("key") == "key" and \
+                (kw.get("color") == ("self._off_color" if name == "off" else "color"))
+            chk.ob("CMD-9", "Light.%s hands its fade, priority and key on (colour: %s)" % (name, "off colour" if name == "off" else "the on colour"), ok, g.where(c),
+                   detail=str(kw), construct=g.ident, text="Light.%s arguments" % name)
+
+
 def scan_exits_only_at_key(chk, rule, g, gcfg, h, name):
     """Every early exit (break / return) of a stack scan is taken at the key, so the entry with that key is always found."""
     for n in gcfg.nodes_where(lambda n: n.kind == "stmt" and isinstance(n.ast, (ast.Break, ast.Return))):
@@ -919,6 +953,9 @@ def scan_exits_only_at_key(chk, rule, g, gcfg, h, name):
 def battery():
     from sa.battery import M
     return [
+        M("off on an empty stack is dropped", LT, "        del kwargs\n        self.color(color=self._off_color, fade_ms=fade_ms, priority=priority,", "        del kwargs\n        if not self.stack:\n            return\n        self.color(color=self._off_color, fade_ms=fade_ms, priority=priority,", "CMD-9"),
+        M("repeated colour on top is dropped", LT, "        if not start_time:\n            start_time = self.machine.clock.get_time()\n\n        color_changes =", "        if self.stack and not fade_ms and self.stack[0].key == key and self.stack[0].dest_color == color:\n            return\n        if not start_time:\n            start_time = self.machine.clock.get_time()\n\n        color_changes =", "CMD-9"),
+        M("on() ignores the priority", LT, "        self.color(color=color, fade_ms=fade_ms,\n                   priority=priority, key=key)", "        self.color(color=color, fade_ms=fade_ms,\n                   key=key)", ("CMD-9", "DROP-0")),
         M("light player removes under the bare context", "mpf/config_players/light_player.py", "    def _remove(self, settings, context, key=\"\"):\n        instance_dict = self._get_instance_dict(context)\n        full_context = self._get_full_context(context + key)", "    def _remove(self, settings, context, key=\"\"):\n        instance_dict = self._get_instance_dict(context)\n        full_context = self._get_full_context(context)", "PLAYER-9"),
         M("light player stops at the first unreplaced placeholder", "mpf/config_players/light_player.py", "                    if not light_name or light_name[0:1] == \"(\" and light_name[-1:] == \")\":\n                        continue", "                    if not light_name or light_name[0:1] == \"(\" and light_name[-1:] == \")\":\n                        break", "PLAYER-9"),
         M("light player ignores the caller's priority", "mpf/config_players/light_player.py", "                final_priority += priority", "                final_priority += 0", "PLAYER-9"),
